@@ -13,6 +13,71 @@ KERNELS = ['UtcDateTime::from_timespec', 'UtcDateTime::new', 'days_since_unix_ep
            'check_month_week_day_and_julian_day', 'binary_search_i64', 'binary_search_transitions', 'binary_search_leap_seconds', 'TzAsciiStr::new', 'LocalTimeType::new', 'format_date_time']
 
 
+class FeatureProbe:
+    """the real crate built natively WITH A GIVEN FEATURE SET (dev profile, overflow checks on), driven through its public allocation-free API"""
+    FEAT = {'nostd': '', 'alloc': '"alloc"', 'default': '"std"'}
+
+    def __init__(s, feat):
+        import os, shutil, subprocess
+        s.dir = os.path.join(common.scratch(), 'probe_' + feat)
+        common.copy_repo(os.path.join(s.dir, 'repo'))
+        os.makedirs(os.path.join(s.dir, 'bin', 'src'), exist_ok=True)
+        shutil.copy(os.path.join(common.VERIF, 'replay/probe/src/main.rs'), os.path.join(s.dir, 'bin', 'src', 'main.rs'))
+        open(os.path.join(s.dir, 'bin', 'Cargo.toml'), 'w').write(
+            '[package]\nname = "tzprobe"\nversion = "0.0.0"\nedition = "2021"\n\n[dependencies]\ntz-rs = { path = "../repo", default-features = false, features = [%s] }\n\n[profile.dev]\ndebug = false\n\n[workspace]\n' % s.FEAT[feat])
+        env = dict(common.ENV, CARGO_TARGET_DIR=os.path.join(s.dir, 'target'), RUSTFLAGS='-C overflow-checks=on')
+        p = subprocess.run(['cargo', 'build', '--offline', '-q'], cwd=os.path.join(s.dir, 'bin'), env=env, capture_output=True, text=True)
+        if p.returncode != 0:
+            raise common.Inconclusive(f'feature probe ({feat}) does not build: ' + p.stderr[-1500:])
+        s.bin = os.path.join(s.dir, 'target', 'debug', 'tzprobe')
+
+    def run(s, lines):
+        import subprocess
+        p = subprocess.run([s.bin], input='\n'.join(lines) + '\n', capture_output=True, text=True)
+        return [l for l in p.stdout.split('\n') if l != ''] or ['panic']
+
+
+_probes = {}
+
+
+def probe(feat):
+    if feat not in _probes:
+        _probes[feat] = FeatureProbe(feat)
+    return _probes[feat]
+
+
+def want_utc(t, ns):
+    if not (calref.MIN_T <= t <= calref.MAX_T):
+        return 'err'
+    g = calref.gmtime(t)
+    return 'ok ' + ' '.join(map(str, g[:6])) + f' {ns} {t} wd={g[6]} yd={g[7]}'
+
+
+def rp_feature(feat, kind, m):
+    """native replay of a per-configuration model in THAT configuration, judged by the python calendar reference"""
+    if kind == 'gmtime':
+        t, ns = m.get('t', 0), m.get('ns', 0)
+        cmd, want = f'gmtime {t} {ns}', want_utc(t, ns)
+    elif kind == 'total':
+        n = m.get('n', 0)
+        sec, r = n // 10**9, n % 10**9
+        cmd = f'utc_total {n}'
+        want = want_utc(sec, r) if -2**63 <= sec < 2**63 else 'err'
+        if want != 'err':
+            want += f' total={n}'
+    else:
+        a = [m.get(k, d) for k, d in (('y', 2000), ('m8', 1), ('d8', 1), ('hh', 0), ('mm', 0), ('ss', 0), ('nn', 0))]
+        cmd = 'utc_new ' + ' '.join(map(str, a))
+        y, mo, d, h, mi, sec, nn = a
+        ok = 1 <= mo <= 12 and 1 <= d <= calref.dim(y, mo) and h < 24 and mi < 60 and sec <= 60 and nn < 10**9 and not (y == 2**31 - 1 and (mo, d, h, mi, sec) == (12, 31, 23, 59, 60))
+        want = 'ok' if ok else 'err'
+    o = probe(feat).run([cmd])[0]
+    bad = o.startswith('panic') or (want == 'err') != o.startswith('err') or (want not in ('ok', 'err') and o != want)
+    if bad:
+        return (f'features={feat}: `{cmd}` gives {o!r}; expected {want!r}', {'cmd': cmd, 'want': want, 'features': feat, 'kind': 'feature-probe'})
+    return None
+
+
 def norm(txt):
     txt = re.sub(r'\b(std|core|alloc)::', '', txt)
     return txt
@@ -53,10 +118,10 @@ def run(ck):
         ok = CMP('=', r['$d'], 0)
         f = r['$v']['Ok'][0]
         y, mo, d, h, mi, s = f['year'], f['month'], f['month_day'], f['hour'], f['minute'], f['second']
-        A.claim(f'{feat}:gmtime_fields_valid', AND(ok, NOT(AND(valid_fields(y, mo, d, h, mi, s, 59), CMP('=', f['nanoseconds'], ns)))), get=[t], replay=lambda m: None)
-        A.claim(f'{feat}:gmtime_ok_iff_range', NOT(IFF(ok, AND(CMP('<=', calref.MIN_T, t), CMP('<=', t, calref.MAX_T)))), get=[t], replay=lambda m: None)
+        A.claim(f'{feat}:gmtime_fields_valid', AND(ok, NOT(AND(valid_fields(y, mo, d, h, mi, s, 59), CMP('=', f['nanoseconds'], ns)))), get=[t, ns], replay=lambda m, feat=feat: rp_feature(feat, 'gmtime', m))
+        A.claim(f'{feat}:gmtime_ok_iff_range', NOT(IFF(ok, AND(CMP('<=', calref.MIN_T, t), CMP('<=', t, calref.MAX_T)))), get=[t, ns], replay=lambda m, feat=feat: rp_feature(feat, 'gmtime', m))
         u = ex.call('unix_time', [y, mo, d, h, mi, s], g=ok, sigpart='(_1: i32, _2: u8')
-        A.claim(f'{feat}:gmtime_inverse_of_timegm', AND(ok, NOT(CMP('=', u, t))), get=[t], replay=lambda m: None, required=not quick or feat != 'default', cap=300)
+        A.claim(f'{feat}:gmtime_inverse_of_timegm', AND(ok, NOT(CMP('=', u, t))), get=[t, ns], replay=lambda m, feat=feat: rp_feature(feat, 'gmtime', m), required=not quick or feat != 'default', cap=300)
         yy = I('y', 'i32')
         yn = CMP('<', yy, rng('i32')[1])
         D = lambda a, g=True: ex.call('days_since_unix_epoch', a, g=g)
@@ -65,11 +130,11 @@ def run(ck):
         rn = ex.call('UtcDateTime::new', [yy, m8, d8, hh, mm, ss, nn])
         valid = AND(valid_fields(yy, m8, d8, hh, mm, ss, 60), CMP('<', nn, 10**9))
         excl = AND(CMP('=', yy, rng('i32')[1]), CMP('=', m8, 12), CMP('=', d8, 31), CMP('=', hh, 23), CMP('=', mm, 59), CMP('=', ss, 60))
-        A.claim(f'{feat}:new_accepts_iff_real_date', NOT(IFF(CMP('=', rn['$d'], 0), AND(valid, NOT(excl)))), replay=lambda m: None)
+        A.claim(f'{feat}:new_accepts_iff_real_date', NOT(IFF(CMP('=', rn['$d'], 0), AND(valid, NOT(excl)))), get=[yy, m8, d8, hh, mm, ss, nn], replay=lambda m, feat=feat: rp_feature(feat, 'new', m))
         n = I('n', 'i128')
         sp = ex.call('total_nanoseconds_to_timespec', [n])
         s_, r_ = sp['$v']['Ok'][0]
-        A.claim(f'{feat}:ns_split_exact', AND(CMP('=', sp['$d'], 0), NOT(AND(CMP('=', n, ARI('+', ARI('*', s_, 10**9), r_)), CMP('<=', 0, r_), CMP('<', r_, 10**9)))), replay=lambda m: None)
+        A.claim(f'{feat}:ns_split_exact', AND(CMP('=', sp['$d'], 0), NOT(AND(CMP('=', n, ARI('+', ARI('*', s_, 10**9), r_)), CMP('<=', 0, r_), CMP('<', r_, 10**9)))), get=[n], replay=lambda m, feat=feat: rp_feature(feat, 'total', m))
         A.panic_obligations(f'{feat}:no_panic_overflow', replay=lambda m: None)
         allq += A.queries
         A.queries = []
@@ -97,4 +162,11 @@ def run(ck):
 
 
 def replay(ck, case):
+    c = case['case']
+    if c.get('kind') == 'feature-probe':
+        o = probe(c['features']).run([c['cmd']])[0]
+        w = c['want']
+        bad = o.startswith('panic') or (w == 'err') != o.startswith('err') or (w not in ('ok', 'err') and o != w)
+        print(f"features={c['features']}: {c['cmd']} -> {o!r}; expected {w!r}; violates: {bad}")
+        return 1 if bad else 0
     return kprop.replay_playback(ck, case)
